@@ -746,7 +746,11 @@ func (p *parser) parseField(node *node32) (field *Field, err error) {
 				f.ReservedComments = reservedComments
 			}
 		case ruleFieldId:
-			i, _ := strconv.ParseInt(p.pegText(node), 10, 32)
+			text, base := p.pegText(node), 10
+			if strings.HasPrefix(text, "0x") || strings.HasPrefix(text, "0o") {
+				base = 0 // the grammar allows hex and octal spellings of a field id
+			}
+			i, _ := strconv.ParseInt(text, base, 32)
 			f.ID = int32(i)
 		case ruleFieldReq:
 			require := p.pegText(node)
